@@ -79,19 +79,21 @@ func cmdVC(args []string) int {
 	defer os.RemoveAll(tmp)
 	var vcs []*FuncVC
 	for _, k := range args {
-		fn := P.Func(k)
-		if fn == nil {
+		insts := P.Instances(k)
+		if len(insts) == 0 {
 			fmt.Println("no such function:", k)
 			continue
 		}
-		vc := NewFuncVC(P, S, fn, S.Contracts[k])
-		vc.Encode()
-		vcs = append(vcs, vc)
-		for _, e := range vc.errs {
-			fmt.Println("ERROR", k, e)
-		}
-		for _, u := range vc.unsupported {
-			fmt.Println("UNSUPPORTED", k, u)
+		for _, fn := range insts {
+			vc := NewFuncVC(P, S, fn, S.Contracts[k])
+			vc.Encode()
+			vcs = append(vcs, vc)
+			for _, e := range vc.errs {
+				fmt.Println("ERROR", k, e)
+			}
+			for _, u := range vc.unsupported {
+				fmt.Println("UNSUPPORTED", k, u)
+			}
 		}
 	}
 	Discharge(vcs, RunOpts{TimeoutS: 10, Solvers: []string{"z3-new", "z3", "cvc5"}, TmpDir: tmp, Jobs: 16, KeepDir: keep})
